@@ -1549,15 +1549,21 @@ fn c11(ctx: &Ctx, gi: usize, ri: usize, rep: &mut Report, note: &dyn Fn(&str)) {
     let g = &ctx.grammars[gi];
     let inputs = inputs_for(ctx, e, 0);
     let w = what::PP | what::PF | what::CP | what::CF;
-    for input in &inputs {
+    let max = ctx.len_for(e);
+    for whole in &inputs {
+      // all-forms grammars: also every Position / Span sub-input (well-foundedness judged on the slice)
+      let sub_ok = whole.chars().count() + 1 <= max || ctx.opts.only_input.is_some();
+      for (form, a, b_end) in forms_of(e, whole, sub_ok) {
+        let hi = if form == Form::Span { b_end } else { whole.len() };
+        let input: &str = &whole[a..hi];
         let case = Case {
             ctx,
             gi,
             ri,
-            input,
-            form: Form::Str,
-            a: 0,
-            b: input.len(),
+            input: whole,
+            form,
+            a,
+            b: b_end,
             init: &[],
         };
         let r = m::run(g, ri, input, "", &[], false, Atom::NonAtomic);
@@ -1583,6 +1589,7 @@ fn c11(ctx: &Ctx, gi: usize, ri: usize, rep: &mut Report, note: &dyn Fn(&str)) {
             }
             Err(p) => rep.violation(case.violation("typed-panic", "returns".into(), format!("panic: {}", p), String::new())),
         }
+      }
     }
 }
 
